@@ -6,12 +6,46 @@ EXTENDS RuleStore, Json
 \* near-equal variants: "R1a" / "R1b" differ from "R1" in one field, slightly (and from each other)
 MCNear      == [t \in {"R1a", "R1b", "R2a", "R2b", "R3a", "R3b"} |->
                    IF t \in {"R1a", "R1b"} THEN "R1" ELSE IF t \in {"R2a", "R2b"} THEN "R2" ELSE "R3"]
-MCListBased == [perRes |-> TRUE,  invalid |-> {"I1", "Nil"}, rejects |-> FALSE, ordered |-> TRUE,  near |-> MCNear]
-MCSystem    == [perRes |-> FALSE, invalid |-> {"I1", "Nil"}, rejects |-> FALSE, ordered |-> FALSE, near |-> MCNear]
-MCOutlier   == [perRes |-> TRUE,  invalid |-> {"I1", "Nil"}, rejects |-> TRUE,  ordered |-> TRUE,  near |-> MCNear]
+MCListBased == [perRes |-> TRUE,  invalid |-> {"I1", "Nil"}, rejects |-> FALSE, ordered |-> TRUE,  near |-> MCNear, mod |-> "any", params |-> << >>]
+MCSystem    == [perRes |-> FALSE, invalid |-> {"I1", "Nil"}, rejects |-> FALSE, ordered |-> FALSE, near |-> MCNear, mod |-> "any", params |-> << >>]
+MCOutlier   == [perRes |-> TRUE,  invalid |-> {"I1", "Nil"}, rejects |-> TRUE,  ordered |-> TRUE,  near |-> MCNear, mod |-> "any", params |-> << >>]
 MCDescs     == {MCListBased, MCSystem, MCOutlier}
 MCDescs1    == {MCListBased}
 MCDescsSys  == {MCSystem}
 MCDescsOut  == {MCOutlier}
+
+\* PARAMETER SWEEP: descriptors whose tokens P1 / P2 are PARAMETRIC.  P1 ranges over boundary-rich rule records (statistic
+\* intervals that are / are not multiples or divisors of the global bucket length, the metric interval and the global
+\* interval; bucket counts that divide / do not divide; invalid values), P2 is a plain working rule.  Validity comes from
+\* RuleStore!ValidRule, the controller of a valid rule must be buildable (Built) or the rule is dropped.
+MCFlowRec(intv, thr, tcs, cb) ==
+    [nores |-> FALSE, tcs |-> tcs, cb |-> cb, thr |-> thr, rel |-> 0, ref |-> FALSE, intv |-> intv, wup |-> 10, wcf |-> 0, mq |-> 0,
+     lomem |-> 10, himem |-> 5, lowm |-> 1, hiwm |-> 2]
+MCIntervals == {0, 1, 499, 500, 700, 1000, 1200, 1600, 1700, 2000, 2500, 3100, 4700, 5000, 9999, 10000, 10001, 20000}
+MCFlowRecs  == {MCFlowRec(i, t, s, c) : i \in MCIntervals, t \in {-1000, 2500}, s \in {0, 1}, c \in {0, 1}}
+MCBreakerRec(intv, bc, retry, pct) ==
+    [nores |-> FALSE, nilrule |-> FALSE, strat |-> 2, retry |-> retry, minreq |-> 1, intv |-> intv, bc |-> bc, maxrt |-> 0, thr |-> 3000,
+     probenum |-> 0, pct |-> pct]
+MCBreakerRecs == {MCBreakerRec(i, b, r, p) : i \in {0, 999, 1000}, b \in {0, 1, 3, 4, 1000, 2000}, r \in {0, 1000}, p \in {1000, 1001}}
+MCSweepOf(mod, rejects, recs, plain) ==
+    {[perRes |-> TRUE, invalid |-> {"Nil"}, rejects |-> rejects, ordered |-> TRUE, near |-> MCNear, mod |-> mod,
+      params |-> [t \in {"P1", "P2"} |-> IF t = "P1" THEN a ELSE plain]] : a \in recs}
+MCPlainFlow    == MCFlowRec(1000, 5000, 0, 0)
+MCPlainBreaker == MCBreakerRec(1000, 0, 1000, 1000)
+MCSweepFull    == MCSweepOf("flow", FALSE, MCFlowRecs, MCPlainFlow) \cup MCSweepOf("circuitbreaker", FALSE, MCBreakerRecs, MCPlainBreaker)
+                      \cup MCSweepOf("outlier", TRUE, MCBreakerRecs, MCPlainBreaker)
+\* quick tier: every interval with a Reject, a WarmUp and a Throttling rule, a few invalid ones; every bucket count
+MCFlowRecsQ    == {MCFlowRec(i, 2500, sc[1], sc[2]) : i \in MCIntervals, sc \in {<<0, 0>>, <<1, 0>>, <<0, 1>>}}
+                      \cup {MCFlowRec(i, -1000, 0, 0) : i \in {1000, 1600}}
+MCBreakerRecsQ == {MCBreakerRec(i, b, 1000, 1000) : i \in {999, 1000}, b \in {0, 1, 3, 4, 1000, 2000}}
+                      \cup {MCBreakerRec(0, 1, 1000, 1000), MCBreakerRec(1000, 3, 0, 1000), MCBreakerRec(1000, 3, 1000, 1001)}
+MCSweep        == MCSweepOf("flow", FALSE, MCFlowRecsQ, MCPlainFlow) \cup MCSweepOf("circuitbreaker", FALSE, MCBreakerRecsQ, MCPlainBreaker)
+                      \cup MCSweepOf("outlier", TRUE, MCBreakerRecsQ, MCPlainBreaker)
+\* the whole range of statistic intervals / bucket counts (state-independent; checked on a tiny instance)
+BuildableSweep ==
+    /\ \A i \in 0..20000 : \A s \in {0, 1, 2}, c \in {0, 1} :
+           LET r == MCFlowRec(i, 5000, s, c) IN ValidFlow(r) => Buildable("flow", r)
+    /\ \A i \in 1..2000, b \in 0..40 :
+           LET r == MCBreakerRec(i, b, 1000, 1000) IN ValidBreaker(r) => Buildable("circuitbreaker", r)
 Emit == PrintT(ToJson(h'))
 =============================================================================
